@@ -78,4 +78,36 @@ def flowAt (v : Commodity) (days : List Day) (b : Account) (F D : Int) : Option 
 def alAccounts (days : List Day) : List Account :=
   (((userPostings days).map (fun x => x.2.account)).filter (·.isAL)).eraseDups
 
+/-! ### mapped / collapsed rows (`-m`, `--remap`, `--account`) and per-commodity rows (`-s`) -/
+
+/-- the accounts of the journal selected by `sel` (for a report row `r`: the accounts that pass `--account` and that
+`--remap` followed by `-m` turns into `r`), each once -/
+def sourceAccounts (sel : Account → Bool) (days : List Day) : List Account :=
+  (((userPostings days).map (fun x => x.2.account)).eraseDups).filter sel
+
+/-- exact mark-to-market value of a set of accounts: the sum of `mtm` over them; `none` if one of them is undefined -/
+def mtmOver (v : Commodity) (days : List Day) (S : List Account) (D : Int) : Option Rat :=
+  (S.mapM (fun a => mtm v days a D)).map List.sum
+
+/-- the step bound of a set of accounts: the sum of `stepBound` over them -/
+def stepBoundOver (v : Commodity) (days : List Day) (S : List Account) (F D : Int) : Nat :=
+  (S.map (fun a => stepBound v days a F D)).sum
+
+/-- exact value of the single position `(a, c)` at the end of day `D`: quantity × normalised price (the quantity itself
+in the valuation commodity, 0 for an empty position); `none` if the position is open and has no price -/
+def mtmPos (v : Commodity) (days : List Day) (a : Account) (c : Commodity) (D : Int) : Option Rat :=
+  let q := qtyAt days a c D
+  if q = 0 then some 0
+  else if c = v then some q
+  else match pricesAt v days D with
+    | none => none
+    | some np => (Prices.find c np).map (fun p => q * p)
+
+/-- … summed over a set of accounts -/
+def mtmPosOver (v : Commodity) (days : List Day) (S : List Account) (c : Commodity) (D : Int) : Option Rat :=
+  (S.mapM (fun a => mtmPos v days a c D)).map List.sum
+
+def stepCountOver (v : Commodity) (days : List Day) (S : List Account) (F D : Int) (c : Commodity) : Nat :=
+  (S.map (fun a => stepCount v days a F D c)).sum
+
 end Knut.Spec
